@@ -125,6 +125,7 @@ def role_aliases(data):
                         ("<context::Context as collect::Trace>::trace_gc_weak", CTX + "trace_weak")):
         if have(pub):
             propose(pinned, methods_of_context(g.callees[pub]))
+    out += _gc_ptr(g, data, have)
     out += _dynamic_roots(g, data, have, propose)
     out += _metrics(g, data, have, propose)
     # de-duplicate, keep order
@@ -147,6 +148,33 @@ def _inner_type(ty_s, wrapper):
     """`wrapper<X ...>` -> the path of X (first type argument), generic arguments and lifetimes dropped."""
     m = re.search(re.escape(wrapper) + r"<(?:'[a-z_]+,\s*)?([A-Za-z_0-9:]+)", ty_s or "")
     return m.group(1) if m else None
+
+
+def _gc_ptr(g, data, have):
+    """The private helper type of gc_ptr.rs that knows the header layout (PtrProps today): the one local type that
+    has both a `fat_ptr` and a `read_ptr_meta` associated function; and the header's tagged vtable word, by its type."""
+    out = []
+    if not have("gc_ptr::PtrProps::fat_ptr"):
+        owners = {}
+        for f in g.bodies:
+            m = re.match(r"^(gc_ptr::[A-Za-z_0-9]+)::(fat_ptr|read_ptr_meta)$", f)
+            if m:
+                owners.setdefault(m.group(1), set()).add(m.group(2))
+        c = [t for t, ms in owners.items() if ms == {"fat_ptr", "read_ptr_meta"}]
+        if len(c) == 1 and c[0] != "gc_ptr::PtrProps":
+            out.append((c[0], "gc_ptr::PtrProps"))
+    h = _adt(data, "gc_ptr::GcHeader")
+    if h:
+        fs = h["variants"][0]["fields"]
+        if not any(f["name"] == "tagged_vtable" for f in fs):
+            c = [f for f in fs if "GcVtable" in f.get("ty_s", "") and "Cell<" in f.get("ty_s", "")]
+            if len(c) == 1:
+                c[0]["name"] = "tagged_vtable"
+        if not any(f["name"] == "next" for f in fs):
+            c = [f for f in fs if "Option<gc_ptr::GcPtr>" in f.get("ty_s", "")]
+            if len(c) == 1:
+                c[0]["name"] = "next"
+    return out
 
 
 def _dynamic_roots(g, data, have, propose):
